@@ -175,9 +175,12 @@ def segment(rng, lines, seg_kind, delay_kind):
 def check_1090(col, binpath, rng, tag, seg_kind, delay_kind, malformed, scratch):
     lines, _ = build_feed(rng, rng.randint(20, 90), malformed)
     steps, midline = segment(rng, lines, seg_kind, delay_kind)
-    plan = steps + [("mark", "feed_done"), ("sleep", 30)]
+    # every third scenario the server goes away right behind the last line: what was sent before
+    # the close still has to come out (nothing about 1090's own fate after a disconnect is judged)
+    closing = tag.rsplit("#", 1)[-1].isdigit() and int(tag.rsplit("#", 1)[-1]) % 3 == 1
+    plan = steps + [("mark", "feed_done")] + ([("close",), ("sleep", 30)] if closing else [("sleep", 30)])
     s = session.Dump1090Session(binpath, plan)
-    cls = f"seg={seg_kind}|delay={delay_kind}|malformed={malformed}"
+    cls = f"seg={seg_kind}|delay={delay_kind}|malformed={malformed}" + ("|then_close" if closing else "")
     inp = {"client": "1090", "segmentation": seg_kind, "delay": delay_kind, "malformed": malformed, "lines": [d.decode("latin1") for _, d, *_ in lines], "tag": tag}
     try:
         # wait until the feed is out and the client is quiet
@@ -193,7 +196,12 @@ def check_1090(col, binpath, rng, tag, seg_kind, delay_kind, malformed, scratch)
             raise Inconclusive("1090 scenario did not finish")
         if s.srv.error:
             raise Inconclusive(f"feed server: {s.srv.error}")
-        died = s.p.poll() is not None
+        if closing:
+            # give the client a moment behind the close (it may exit or keep polling; both are fine)
+            t_end = time.monotonic() + 1.5
+            while time.monotonic() < t_end:
+                time.sleep(0.05)
+        died = s.p.poll() is not None and not closing
         out = s.out.decode("utf-8", "replace")
         err = s.err.decode("utf-8", "replace")
         want = [d[1:-2].decode().lower() for k, d, *_ in lines if k in ("good", "other")]
